@@ -98,7 +98,8 @@ EVN = [
 ]
 EVC = ["T2P", "P2S", "P2T", "LAP", "S2T", "S2D", "D2X", "S2X", "X2S", "D2S"]
 OPN = ["add", "delete", "expunge", "flush", "commit", "rollback", "close", "merge", "make_transient",
-       "make_transient_to_detached"]
+       "make_transient_to_detached", "begin_nested", "nested_rollback", "nested_commit"]
+NO_TARGET = (3, 4, 5, 6, 10, 11, 12)
 SN = {0: "absent", 1: "transient", 2: "pending", 4: "persistent", 8: "deleted", 16: "detached"}
 LCC = {"transient": "Transient", "pending": "Pending", "persistent": "Persistent", "deleted": "Deleted",
        "detached": "Detached"}
@@ -208,6 +209,23 @@ def gen_cases(rng, tier):
         if tier != "thorough" and (k // 2) % 2:
             continue
         cases.append({"in": [1 - (k & 1), [1, 1], [], [[0, 0], [3, 0], [a, i], [b, j], [5, 0]]], "kind": "two-objects"})
+    # tours: a flushed / an unflushed delete, two operations, then flush and commit
+    tour_ops = (0, 1, 2, 3, 5, 8, 9) if tier != "thorough" else tuple(range(10))
+    for pre in ([[0, 0], [4, 0], [1, 0], [3, 0]], [[0, 0], [4, 0], [1, 0]]):
+        for k, (x, y) in enumerate(itertools.product(tour_ops, repeat=2)):
+            cases.append({"in": [k & 1, [1], [], pre + [[x, 0], [y, 0], [3, 0], [4, 0]]], "kind": "tour"})
+    # SAVEPOINT histories (begin_nested / rollback or release of the savepoint): the Coq model has no nested
+    # transactions, these cases are checked by the oracle only
+    sp_ops = (0, 1, 2, 3, 5, 10, 11, 12)
+    for k, seq in enumerate(itertools.product(sp_ops, repeat=3)):
+        if 10 not in seq:
+            continue
+        for pre in ([[0, 0], [4, 0], [1, 0], [3, 0]], [[0, 0], [3, 0]]):
+            cases.append({"in": [1, [1], [], pre + [[c, 0] for c in seq] + [[5, 0]]], "kind": "savepoint", "model": False})
+    for _ in range(3000 if tier == "thorough" else 150):
+        ops = [[rng.choice((0, 1, 2, 3, 4, 5, 8, 10, 10, 11, 12)), rng.randint(0, 3)] for _ in range(rng.randint(3, 9))]
+        cases.append({"in": [rng.randint(0, 1), [1, 2], [], [[0, 0], [0, 1], [rng.choice((3, 4)), 0]] + ops],
+                      "kind": "savepoint-random", "model": False})
     nrand = 20000 if tier == "thorough" else 500
     weights = [[3, 2, 2, 3, 3, 2, 1, 1, 2, 1], [3, 3, 1, 4, 2, 3, 0, 3, 3, 3], [2] * 10]
     for _ in range(nrand):
@@ -224,7 +242,7 @@ def nontrivial(c):
     t = c["in"]
     # after model_pair the input is [eoc, pks, model ops]; before it is [eoc, pks, rows, ops]
     ops = t[-1]
-    return any((o[0] & 15) in (0, 7) for o in ops) and len(ops) >= 2
+    return any((o[0] & 15) in (0, 7) for o in ops) and len(ops) >= 2 and c.get("model", True)
 
 
 # ------------------------------------------------------------------------------------------------
@@ -344,6 +362,16 @@ def impl(case):
                     E["make_transient"](o)
                 elif code == 9:
                     E["make_transient_to_detached"](o)
+                elif code == 10:
+                    s.begin_nested()
+                elif code == 11:
+                    t = s.get_nested_transaction()
+                    if t is not None:
+                        t.rollback()
+                elif code == 12:
+                    t = s.get_nested_transaction()
+                    if t is not None:
+                        t.commit()
             except Exception as ex:
                 err = _exc_code(ex, E)
             evs = [(idx(x), n, sc) for n, x, sc in log]
@@ -410,6 +438,12 @@ def _violations(case, obs):
                 ok = False
             if not ok:
                 viol.append((k, j, "transition", code, b, tuple(evs), sc))
+            elif (code in NO_TARGET or j != tgt) and j < len(prev) and b in (1, 16) and (sc != b or evs):
+                # an object outside the session that is not the operation's argument is not touched
+                viol.append((k, j, "outside", code, b, tuple(evs), sc))
+            elif code == 0 and j == tgt and err == 0 and (w >> 5) & 2:
+                # add() leaves the object persistent / pending: it is no longer marked for deletion
+                viol.append((k, j, "add-keeps-delete-mark", code, b, tuple(evs), sc))
         prev = [w & 31 for w in sts]
     return viol
 
@@ -418,6 +452,11 @@ def _describe(v):
     k, j, kind, code, b, evs, sc = v
     if kind == "not-exactly-one-state":
         return "step %d (%s): object %d is in %d lifecycle states at once (flag mask %d)" % (k, OPN[code], j, bin(sc).count("1"), sc)
+    if kind == "outside":
+        return "step %d (%s): object %d is not the operation's argument and was %s (outside the session), yet events %s fired and it is %s" % (
+            k, OPN[code], j, SN.get(b, b), ["%s@%s" % (EVN[e], SN.get(c, c)) for e, c in evs], SN.get(sc, sc))
+    if kind == "add-keeps-delete-mark":
+        return "step %d (add): object %d is %s after add() but still in session.deleted - the next flush will delete an object that add() put back" % (k, j, SN.get(sc, sc))
     return "step %d (%s): object %d was %s, events %s, is %s - not a path of documented transitions each announced by its event" % (
         k, OPN[code], j, SN.get(b, b), ["%s@%s" % (EVN[e], SN.get(c, c)) for e, c in evs], SN.get(sc, sc))
 
@@ -427,16 +466,22 @@ def oracle(case, obs):
     return _describe(v[0]) if v else None
 
 
+_RESTORE_OPS = (3, 4, 5, 7, 10, 11, 12)   # operations that can run _restore_snapshot (rollbacks, failing flushes)
+_FLUSH_OPS = (3, 4, 7, 10, 12)            # operations that flush
 _SIG = [
     # (finding id, ops it may occur in, predicate on (before, events, after))
-    ("C35-rollback-unflushed-delete", (3, 4, 5, 7),
-     lambda b, evs, a: b == 4 and a == 4 and evs == ((9, 4),)),
-    ("C35-restore-stale-new", (3, 4, 5, 7),
-     lambda b, evs, a: (b == 1 and a == 1 and evs == ((2, 1),)) or (b == 16 and a == 1 and evs == ((4, 1),))),
-    ("C35-restore-deleted-new", (3, 4, 5, 7),
+    ("C35-rollback-unflushed-delete", _RESTORE_OPS,
+     lambda b, evs, a: b == 4 and evs[:1] == ((9, 4),)),
+    ("C35-restore-stale-new", _RESTORE_OPS,
+     lambda b, evs, a: (b in (1, 2) and a == 1 and evs and set(evs) == {(2, 1)} and not (b == 2 and len(evs) == 1))
+     or (b == 16 and a == 1 and evs in (((4, 1),), ((6, 1),)))),
+    ("C35-restore-deleted-new", _RESTORE_OPS,
      lambda b, evs, a: b == 8 and a == 1 and evs == ((6, 1),)),
-    ("C35-double-persistent-to-deleted", (3, 4, 7),
+    ("C35-double-persistent-to-deleted", _FLUSH_OPS,
      lambda b, evs, a: (b == 8 and evs[:1] == ((5, 8),)) or evs[:2] == ((5, 8), (5, 8))),
+    # later manifestations of the same acceptance of a deleted-state object by delete()
+    ("C35-double-persistent-to-deleted", (4, 5, 11),
+     lambda b, evs, a: (b == 8 and a == 4 and evs == ((9, 4), (9, 4))) or (b == 16 and a == 16 and evs == ((6, 16),))),
     ("C35-delete-was-deleted", (1,),
      lambda b, evs, a: b == 16 and a == 8 and evs == ((8, 8),)),
 ]
